@@ -103,7 +103,7 @@ class C04(Sim):
             "seeded scheduler; distinct = distinct (mesh kinds, (operation, format, switches) sequence); non-trivial = >= 1 file saved or planted and >= 1 load or cross-read judged")
     FAULT_KINDS = ["lexical", "config_flip", "reject"]
     PROBES = ["wild_coordinates", "polygon_to_triangle_format", "attributes_roundtrip", "query_before_save", "resave_after_load", "stl", "hex", "export_edges_off",
-              "crlf", "comments", "exp_floats", "no_final_newline", "cross_read", "cross_write_load", "save_load", "overwrite", "faceless_stl", "ignore_elements"]
+              "crlf", "comments", "exp_floats", "no_final_newline", "cross_read", "cross_write_load", "save_load", "overwrite", "faceless_stl", "ignore_elements", "raw_load"]
     QUICK_RUNS = 2500
     THOROUGH_RUNS = 250000
     BLOCK = 25
@@ -256,7 +256,7 @@ class C04(Sim):
                 ev["ignore"] = r.subset(["edges", "faces", "cells"], 0.5, at_least=1)
             return ev
         if c == "loader":
-            return {"c": c, "op": "load", "path": r.choice(sorted(self.files)), "keep": r.chance(0.3)}
+            return {"c": c, "op": "load", "path": r.choice(sorted(self.files)), "keep": r.chance(0.3), "raw": r.chance(0.2)}
         if c == "xreader":
             saved = sorted(p for p, f in self.files.items() if f["origin"] == "save")
             if not saved:
@@ -517,6 +517,25 @@ class C04(Sim):
             self.probes["save_load" if info["origin"] == "save" else "cross_write_load"] += 1
             self.njudged += 1
             self.seq.append("load:%s:%s" % (fmt, info["origin"]))
+            if ev.get("raw") and fmt != "stl":
+                # load(raw=True): the bare content of the file, before any completion - "element kinds a format cannot express are absent"
+                self.probes["raw_load"] += 1
+                o = call(M.mesh.load, self.fs.root + ev["path"], None, True)
+                ac = "%s/%s/raw/%s" % (fmt, info["origin"], info["kinds"])
+                if not o.ok:
+                    self.exc_violation("loads-correctly" if info["origin"] == "plant" else "load-gives-back", "load", o, ac, "load(%r, raw=True) raised" % ev["path"])
+                raw, ex = o.value, info["expressed"]
+                gotV = [[float(x) for x in v] for v in raw.vertices]
+                got = {"edges": sorted(tuple(sorted(int(x) for x in e)) for e in raw.edges), "faces": [[int(x) for x in f] for f in raw.faces],
+                       "cells": [[int(x) for x in c_] for c_ in raw.cells]}
+                want = {"edges": sorted(tuple(sorted(e)) for e in ex["edges"]), "faces": ex["faces"], "cells": ex["cells"]}
+                if not same_coords(gotV, ex["vertices"]):
+                    self.violation("same-coordinates-bit-exact", "load", "wrong_value", "vertices", ac, "%s: raw vertices differ from what the file expresses" % ev["path"])
+                for kk in ("edges", "faces", "cells"):
+                    if got[kk] != want[kk]:
+                        self.violation("inexpressible-kinds-absent" if len(got[kk]) > len(want[kk]) else "same-elements-same-vertex-order", "load", "wrong_value", kk, ac,
+                                       "%s: raw %s %r, the file expresses %r" % (ev["path"], kk, got[kk][:8], want[kk][:8]))
+                return "ok"
             o = call(M.mesh.load, self.fs.root + ev["path"])
             ac = "%s/%s/%s" % (fmt, info["origin"], info["kinds"])
             if not o.ok:
